@@ -111,3 +111,22 @@ Section AdjProofs.
       destruct (adj q AND cs s1 (upd AND f v)) as [[s2 b] ev]. cbn in *. exists rest. rewrite <- Hr. reflexivity.
   Qed.
 End AdjProofs.
+
+(** whatever every component (and the two clearing steps) preserves, the adjudication loop preserves *)
+Section AdjInv.
+  Variables (S comp : Type) (stp skp : S -> bool) (clear_skip : S -> S) (eval : comp -> S -> S * bool) (clear_errors : S -> S).
+  Variable P : S -> Prop.
+  Hypothesis Hcs : forall s, P s -> P (clear_skip s).
+  Hypothesis Hce : forall s, P s -> P (clear_errors s).
+
+  Lemma adj_inv q AND : forall cs s f, (forall c, In c cs -> forall s0, P s0 -> P (fst (eval c s0))) -> P s ->
+    P (fst (fst (adj S comp stp skp clear_skip eval clear_errors q AND cs s f))).
+  Proof.
+    induction cs as [|c r IH]; intros s f Hall Hs; cbn [adj].
+    - destruct (negb q && skp s); cbn; auto.
+    - destruct (stp s); [cbn; auto|]. destruct (skp s); [cbn; auto|].
+      pose proof (Hall c (or_introl eq_refl) s Hs) as Hc. destruct (eval c s) as [s1 v]. cbn [fst] in Hc.
+      specialize (IH s1 (upd AND f v) (fun c' Hin => Hall c' (or_intror Hin)) Hc).
+      destruct (adj S comp stp skp clear_skip eval clear_errors q AND r s1 (upd AND f v)) as [[s2 b] ev]. exact IH.
+  Qed.
+End AdjInv.
